@@ -31,3 +31,18 @@ Proof.
   exists [walk_step (row 1 100 120); mk_js (Some c1) (Some c1) 1 0 true 0; mk_js (Some c2) (Some c2) 2 50 false 60; walk_step (row 4 50 60)].
   vm_compute. auto.
 Qed.
+
+(* end to end: every route the model returns, single or alternatives, has consistent totals *)
+From TrV Require Import Proofs.Compose.
+Theorem C06_single_route_totals : forall d s p acc egr fresh r used,
+  wf_data_b d = true -> wf_tables_b d p acc egr = true -> wf_params_b p = true ->
+  calc_single d (conn_set d s) p acc egr fresh = Ok (r, used) -> totals_ok_b d p r = true.
+Proof. exact calc_single_totals. Qed.
+Print Assumptions C06_single_route_totals.
+
+Theorem C06_alternatives_totals : forall d s p acc egr rs total,
+  wf_data_b d = true -> wf_tables_b d p acc egr = true -> wf_params_b p = true ->
+  alternatives d (conn_set d s) p acc egr = Ok (rs, total) ->
+  forall r, In r rs -> totals_ok_b d p r = true.
+Proof. intros d s p acc egr rs total H1 H2 H3 H r Hr. exact (proj2 (proj2 (alternatives_all_ok d s p acc egr rs total H1 H2 H3 H r Hr))). Qed.
+Print Assumptions C06_alternatives_totals.
